@@ -471,6 +471,9 @@ class CircuitTemplate(AbstractBaseTemplate):
         #################################################
 
         # create mapping between requested output variables and the current network variables
+        # (indices relative to each backend variable: a state layout cached by an earlier get_run_func/get_jacobian_func call
+        # belongs to a previous compilation and would turn them into absolute state-vector positions)
+        net._state_var_indices = {}
         if type(outputs) is dict:
             output_map, outputs_ir = net.get_variable_positions(outputs)
         else:
